@@ -6,6 +6,7 @@ import (
 	"math/big"
 	"sort"
 	"strings"
+	"sync/atomic"
 
 	"verif/core"
 
@@ -50,7 +51,6 @@ func newWorld(f *fixture, path string) *world {
 			core.Fatal("validator order of the fixture differs from ValidatorSet order")
 		}
 	}
-	w.val = f.valSet()
 	switch path {
 	case "voteset":
 		w.vs = types.NewVoteSet(chainID, theHeight, w.main.Round, w.main.Type, vset)
@@ -61,6 +61,15 @@ func newWorld(f *fixture, path string) *world {
 	}
 	w.refs[w.main] = newRefSet(f, w.main)
 	return w
+}
+
+// verifier returns the validator set used for VerifyCommit (its own copy, never
+// handed to the vote set).
+func (w *world) verifier() *types.ValidatorSet {
+	if w.val == nil {
+		w.val = w.f.valSet()
+	}
+	return w.val
 }
 
 // implSet returns the real vote set of a step (nil when it does not exist).
@@ -111,6 +120,10 @@ type obs struct {
 	resp  string // added/error class or "panic"
 }
 
+// opsApplied counts every AddVote / SetPeerMaj23 executed on the real code
+// (replayed prefixes included).
+var opsApplied int64
+
 const (
 	modeReplay = iota // re-establish a state that was checked before: answers are judged, observers are not read
 	modeCheck         // all oracles, commit verified untampered
@@ -121,6 +134,7 @@ const (
 // every oracle failure of this step; the execution may only go on when all of
 // them are marked cont.
 func (w *world) apply(li int, mode int) (o obs, ps []*problem) {
+	atomic.AddInt64(&opsApplied, 1)
 	l := &w.f.letters[li]
 	var p *problem // a panic on an invalid vote (execution goes on if nothing changed)
 	if l.Kind == kClaim {
@@ -380,7 +394,7 @@ func (w *world) checkCommit(vs *types.VoteSet, r *refSet, l *letter, full bool) 
 	var err error
 	pan, v, st := core.Try(func() {
 		commit = vs.MakeCommit()
-		err = w.val.VerifyCommit(chainID, maj, theHeight, commit)
+		err = w.verifier().VerifyCommit(chainID, maj, theHeight, commit)
 	})
 	if pan {
 		return fail(core.PanicSite(st), "panic-commit", "MakeCommit/VerifyCommit panicked: %v", core.FirstLine(v))
@@ -459,7 +473,7 @@ func (w *world) checkCommit(vs *types.VoteSet, r *refSet, l *letter, full bool) 
 		}
 		var verr error
 		pan, v, st := core.Try(func() {
-			verr = w.val.VerifyCommit(chainID, maj, theHeight, &types.Commit{BlockID: commit.BlockID, Precommits: pcs})
+			verr = w.verifier().VerifyCommit(chainID, maj, theHeight, &types.Commit{BlockID: commit.BlockID, Precommits: pcs})
 		})
 		if pan {
 			shape := "some-votes-left"
@@ -510,7 +524,7 @@ func (w *world) checkCommit(vs *types.VoteSet, r *refSet, l *letter, full bool) 
 		pan, v, st := core.Try(func() {
 			pcs := make([]*types.Vote, f.n)
 			copy(pcs, commit.Precommits)
-			verr = w.val.VerifyCommit(a.chain, f.blocks[a.block], a.height, &types.Commit{BlockID: commit.BlockID, Precommits: pcs})
+			verr = w.verifier().VerifyCommit(a.chain, f.blocks[a.block], a.height, &types.Commit{BlockID: commit.BlockID, Precommits: pcs})
 		})
 		if pan {
 			return &problem{site: core.PanicSite(st), kind: "panic-tampered-commit", letter: a.name,
